@@ -195,6 +195,13 @@ func (P *Parser) Error(err error, scanner Scanner) (recovered bool, errorAttrib 
 		errorAttrib.ExpectedTokens = append(errorAttrib.ExpectedTokens, P.tokenMap.TokenString(t))
 	}
 
+	// Only a recovery state may shift the error symbol. The grammar of gocc
+	// itself has no error productions (no state is flagged canRecover); its
+	// "error" entries are for the keyword of that name and must not be used to
+	// skip over a syntax error.
+	if !P.actTab[P.stack.Top()].canRecover {
+		return
+	}
 	action, ok := P.actTab[P.stack.Top()].Actions[P.tokenMap.Type("error")]
 	if !ok {
 		return
